@@ -96,9 +96,11 @@ Floating_Point_Expression<FP_Interval_Type, FP_Format>
   typedef typename Floating_Point_Expression<FP_Interval_Type, FP_Format>
     ::boundary_type Boundary;
   boundary_type omega;
-  omega = std::max(pow(static_cast<Boundary>(FP_Format::BASE),
-                       static_cast<Boundary>(1 - FP_Format::EXPONENT_BIAS
-                                             - FP_Format::MANTISSA_BITS)),
+  // Note: MANTISSA_BITS is unsigned; the exponent must be computed on ints.
+  const int power = 1 - static_cast<int>(FP_Format::EXPONENT_BIAS)
+    - static_cast<int>(FP_Format::MANTISSA_BITS);
+  omega = std::max(static_cast<Boundary>(std::pow(static_cast<Boundary>(FP_Format::BASE),
+                                                  static_cast<Boundary>(power))),
                    std::numeric_limits<Boundary>::denorm_min());
   FP_Interval_Type result;
   result.build(i_constraint(GREATER_OR_EQUAL, -omega),
